@@ -424,6 +424,13 @@ def dictKeys : List (Nat × Nat) → List (Nat × Nat) → List (Nat × Nat)
   | seen, [] => seen
   | seen, a :: rest => if seen.contains a then dictKeys seen rest else dictKeys (seen ++ [a]) rest
 
+/-- the `def=` references of the spec family sit in the FIRST message: when a later message has the same key
+    (`override_messages`: it replaces the first one in the dict), the module shows none of the resolved datatypes -/
+def shownTypes (msgs : List Nat) (resolved : List Nat) : List Nat :=
+  match msgKeys 0 msgs with
+  | k0 :: rest => if rest.contains k0 then [] else resolved
+  | [] => resolved
+
 /-- ITCH / OUCH / SQF: `Parser.parse(spec_file, override_messages)` then `Generator(...).generate()` -/
 def planSoup (sem : Semantics) (st : ProcState) (impl : Impl) (spec : SoupSpec) (o : GenOpts) :
     ProcState × Except Err RelPlan :=
@@ -441,7 +448,7 @@ def planSoup (sem : Semantics) (st : ProcState) (impl : Impl) (spec : SoupSpec) 
     -- field definitions, records and enums in the spec files; with `override_messages` the later declaration wins)
     if !o.override && dupKey (msgKeys 0 spec.msgs) then (st', .error .value) else
     let modName := prefix_ o.pfx ++ impl.str ++ sUnderscore ++ o.app
-    let modAct : RelAction := ⟨modName ++ sPy, sem.genMode, [.soupModule impl o.app spec.id spec.msgs resolved]⟩
+    let modAct : RelAction := ⟨modName ++ sPy, sem.genMode, [.soupModule impl o.app spec.id spec.msgs (shownTypes spec.msgs resolved)]⟩
     let initAct : RelAction := ⟨sInit ++ sPy, sem.genMode, [.initLine modName]⟩
     (st', .ok ⟨false, if o.init then [modAct, initAct] else [modAct], [modName]⟩)
 
